@@ -1,7 +1,8 @@
 (* C03: _update_node's whole-document recurse() is a pointwise substitution. *)
 From Coq Require Import Ascii String List ZArith NArith Bool Lia Arith.
-From YP Require Import Outcome PyStr PyVal Doc Searches Mutate C04spec C04lists C03spec.
+From YP Require Import Outcome PyStr PyVal Doc Searches Mutate C04spec C04lists C03spec PyValOrder.
 Import ListNotations.
+Open Scope list_scope.
 
 Lemma imap_mapi : forall A B (f : nat -> A -> B) l k, imap f k l = mapi_from f k l.
 Proof. induction l; intros; simpl; [reflexivity|]. rewrite IHl. reflexivity. Qed.
@@ -41,74 +42,308 @@ Proof.
     try (apply andb_true_iff in Hwf; destruct Hwf as [Hc _]); congruence.
 Qed.
 
-Theorem recurse_subst : forall poid pref roid repl d,
-  wf_attr d = true -> keys_sets_clean poid roid d = true ->
-  recurse poid pref roid repl d = subst (designated poid pref roid) repl d.
+(* ---- ordereddict.insert without a collision is a positional replacement ---- *)
+Lemma key_eqb_mkey : forall a b, key_eqb a b = mkey_eq a b.
+Proof. intros [] []; reflexivity. Qed.
+
+Lemma mkey_eq_sym : forall a b, mkey_eq a b = mkey_eq b a.
+Proof. intros [? x| | |] [? y| | |]; simpl; auto. apply py_eq_sym. Qed.
+
+Definition kfresh (k : node) (acc : list (node * node)) : Prop :=
+  forallb (fun x => negb (key_eqb (fst x) k)) acc = true.
+
+Lemma od_set_fresh : forall k v acc, kfresh k acc -> od_set k v acc = acc ++ [(k, v)].
 Proof.
-  intros poid pref roid repl d. induction d using node_ind'; intros Hwf Hcl.
+  unfold kfresh. induction acc as [|[k0 v0] r IH]; simpl; intros H; auto.
+  apply andb_true_iff in H. destruct H as [H1 H2]. apply negb_true_iff in H1. rewrite H1. rewrite IH; auto.
+Qed.
+
+Fixpoint all_fresh (acc l : list (node * node)) : Prop :=
+  match l with
+  | [] => True
+  | kv :: r => kfresh (fst kv) acc /\ all_fresh (acc ++ [kv]) r
+  end.
+
+Section OdInsert.
+Variables (pos : nat) (k v : node).
+Let step := fun (st : nat * list (node * node)) (kv : node * node) =>
+  (S (fst st), od_set (fst kv) (snd kv) (if Nat.eqb (fst st) pos then od_set k v (snd st) else snd st)).
+
+Lemma od_fold_past : forall l n acc,
+  pos < n -> all_fresh acc l -> snd (fold_left step l (n, acc)) = acc ++ l.
+Proof.
+  induction l as [|kv r IH]; intros n acc Hn Hf; simpl.
+  - rewrite app_nil_r. reflexivity.
+  - destruct kv as [k1 v1]. destruct Hf as [Hf1 Hf2]. unfold step at 2. simpl.
+    replace (n =? pos)%nat with false by (symmetry; apply Nat.eqb_neq; lia).
+    rewrite od_set_fresh by assumption.
+    rewrite IH; auto. rewrite <- app_assoc. reflexivity.
+Qed.
+
+Lemma od_fold_insert : forall pre post n acc,
+  pos = n + length pre -> post <> [] ->
+  all_fresh acc (pre ++ (k, v) :: post) ->
+  snd (fold_left step (pre ++ post) (n, acc)) = acc ++ pre ++ (k, v) :: post.
+Proof.
+  induction pre as [|kv pre' IH]; intros post n acc Hp Hne Hf; simpl in *.
+  - destruct post as [|[k1 v1] r]; [congruence|]. simpl.
+    destruct Hf as [Hk [Hkv Hr]]. unfold step at 2. simpl.
+    replace (n =? pos)%nat with true by (symmetry; apply Nat.eqb_eq; lia).
+    rewrite (od_set_fresh k v acc) by assumption.
+    rewrite od_set_fresh by assumption.
+    rewrite od_fold_past; [|lia|assumption].
+    rewrite <- !app_assoc. reflexivity.
+  - destruct kv as [k1 v1]. destruct Hf as [Hkv Hr]. unfold step at 2. simpl.
+    replace (n =? pos)%nat with false by (symmetry; apply Nat.eqb_neq; lia).
+    rewrite od_set_fresh by assumption.
+    rewrite (IH post (S n) (acc ++ [(k1, v1)])); auto; [|lia].
+    rewrite <- app_assoc. reflexivity.
+Qed.
+End OdInsert.
+
+Lemma all_fresh_last : forall pre acc k v, all_fresh acc (pre ++ [(k, v)]) -> kfresh k (acc ++ pre).
+Proof.
+  induction pre as [|x pre' IH]; intros acc k v H; simpl in *.
+  - rewrite app_nil_r. tauto.
+  - destruct H as [_ H]. specialize (IH _ _ _ H). rewrite <- app_assoc in IH. exact IH.
+Qed.
+
+Lemma od_insert_replace : forall pre post k v,
+  all_fresh [] (pre ++ (k, v) :: post) ->
+  od_insert (length pre) k v (pre ++ post) = pre ++ (k, v) :: post.
+Proof.
+  intros pre post k v Hf. unfold od_insert.
+  destruct post as [|kv r].
+  - rewrite !app_nil_r. rewrite Nat.leb_refl. apply od_set_fresh.
+    apply (all_fresh_last pre [] k v Hf).
+  - replace (length (pre ++ kv :: r) <=? length pre)%nat with false
+      by (symmetry; apply Nat.leb_gt; rewrite app_length; simpl; lia).
+    apply (od_fold_insert (length pre) k v pre (kv :: r) 0 []); auto. discriminate.
+Qed.
+
+(* pairwise different keys give the freshness the insertion needs *)
+Lemma nodup_app_cons : forall acc k r,
+  mkeys_nodup (acc ++ k :: r) = true ->
+  forallb (fun x => negb (mkey_eq x k)) acc = true /\ mkeys_nodup ((acc ++ [k]) ++ r) = true.
+Proof.
+  induction acc as [|a acc' IH]; intros k r H; simpl in *.
+  - split; auto.
+  - apply andb_true_iff in H. destruct H as [H1 H2]. destruct (IH _ _ H2) as [I1 I2].
+    rewrite forallb_app in H1. apply andb_true_iff in H1. destruct H1 as [H1a H1b].
+    simpl in H1b. apply andb_true_iff in H1b. destruct H1b as [H1k H1r].
+    split.
+    + rewrite H1k, I1. reflexivity.
+    + rewrite I2, andb_true_r. rewrite !forallb_app. simpl. rewrite H1a, H1k, H1r. reflexivity.
+Qed.
+
+Lemma all_fresh_nodup : forall l acc,
+  mkeys_nodup (map fst (acc ++ l)) = true -> all_fresh acc l.
+Proof.
+  induction l as [|kv r IH]; intros acc H; simpl; auto.
+  rewrite map_app in H. simpl in H. destruct (nodup_app_cons _ _ _ H) as [H1 H2]. split.
+  - unfold kfresh. rewrite forallb_forall in *. intros x Hx. rewrite key_eqb_mkey.
+    apply H1. apply in_map. exact Hx.
+  - apply IH. rewrite !map_app. simpl. exact H2.
+Qed.
+
+Lemma nodup_replace : forall pre k0 k post,
+  mkeys_nodup (pre ++ k0 :: post) = true ->
+  (forall x, In x (pre ++ post) -> mkey_eq x k = false) ->
+  mkeys_nodup (pre ++ k :: post) = true.
+Proof.
+  induction pre as [|a pre' IH]; intros k0 k post H Hk; simpl in *.
+  - apply andb_true_iff in H. destruct H as [_ H2]. rewrite H2, andb_true_r.
+    apply forallb_forall. intros x Hx. rewrite mkey_eq_sym, (Hk x Hx). reflexivity.
+  - apply andb_true_iff in H. destruct H as [H1 H2].
+    rewrite (IH k0 k post H2) by (intros; apply Hk; auto). rewrite andb_true_r.
+    rewrite forallb_app in *. apply andb_true_iff in H1. destruct H1 as [H1a H1b].
+    simpl in *. apply andb_true_iff in H1b. destruct H1b as [_ H1r].
+    rewrite H1a, H1r, (Hk a (or_introl eq_refl)). reflexivity.
+Qed.
+
+(* find_idx splits the list at the first hit *)
+Lemma find_idx_split : forall A (Q : A -> bool) l i,
+  find_idx Q l = Some i ->
+  exists pre x post, l = pre ++ x :: post /\ length pre = i /\ Q x = true /\
+                     (forall y, In y pre -> Q y = false).
+Proof.
+  induction l as [|a r IH]; intros i H; simpl in H; [discriminate|].
+  destruct (Q a) eqn:E.
+  - inversion H; subst. exists [], a, r. repeat split; auto. intros y [].
+  - destruct (find_idx Q r) as [j|] eqn:Ej; [|discriminate]. inversion H; subst.
+    destruct (IH j eq_refl) as [pre [x [post [E1 [E2 [E3 E4]]]]]].
+    exists (a :: pre), x, post. subst. repeat split; auto.
+    intros y [<-|Hy]; auto.
+Qed.
+
+Lemma find_idx_none_all : forall A (Q : A -> bool) l, find_idx Q l = None -> forall y, In y l -> Q y = false.
+Proof.
+  induction l as [|a r IH]; intros H y Hy; simpl in *; [contradiction|].
+  destruct (Q a) eqn:E; [discriminate|]. destruct (find_idx Q r) eqn:Er; [discriminate|].
+  destruct Hy as [<-|Hy]; auto.
+Qed.
+
+Lemma nth_error_mid : forall A (pre : list A) x post, nth_error (pre ++ x :: post) (length pre) = Some x.
+Proof. induction pre; simpl; auto. Qed.
+
+Lemma remove_nth_mid : forall A (pre : list A) x post, remove_nth (length pre) (pre ++ x :: post) = pre ++ post.
+Proof. induction pre as [|a r IH]; intros; simpl; auto. rewrite IH. reflexivity. Qed.
+
+Lemma filter_none : forall A (f : A -> bool) l, length (filter f l) = 0 -> forall y, In y l -> f y = false.
+Proof.
+  induction l as [|a r IH]; intros H y Hy; simpl in *; [contradiction|].
+  destruct (f a) eqn:E; [discriminate|]. destruct Hy as [<-|Hy]; auto.
+Qed.
+
+(* rename_keys = "replace every key that is a true alias of the matched node" *)
+Lemma rename_keys_spec : forall roid repl kvs,
+  Nat.leb (length (filter (fun kv => N.eqb (node_oid (fst kv)) roid) kvs)) 1 = true ->
+  mkeys_nodup (map fst kvs) = true ->
+  (forall kv, In kv kvs -> kdesignated roid (fst kv) = true ->
+     forall kv', In kv' kvs -> is_ref roid (fst kv') = false -> key_eqb (fst kv') repl = false) ->
+  rename_keys roid repl kvs = map (fun kv => (if kdesignated roid (fst kv) then repl else fst kv, snd kv)) kvs.
+Proof.
+  intros roid repl kvs Hone Hnd Hnc. unfold rename_keys.
+  change (fun kv : node * node => is_ref roid (fst kv) && hattr (fst kv))
+    with (fun kv : node * node => kdesignated roid (fst kv)).
+  destruct (find_idx (fun kv => kdesignated roid (fst kv)) kvs) as [i|] eqn:Ef.
+  - destruct (find_idx_split _ _ _ _ Ef) as [pre [x [post [E1 [E2 [E3 E4]]]]]]. subst kvs i.
+    rewrite nth_error_mid, remove_nth_mid.
+    (* x is the only entry whose key is the matched object *)
+    assert (Hx : N.eqb (node_oid (fst x)) roid = true).
+    { unfold kdesignated in E3. apply andb_true_iff in E3. tauto. }
+    rewrite filter_app in Hone. simpl in Hone. rewrite Hx in Hone. rewrite app_length in Hone. simpl in Hone.
+    apply Nat.leb_le in Hone.
+    assert (Hpre : forall y, In y pre -> N.eqb (node_oid (fst y)) roid = false) by (apply filter_none; lia).
+    assert (Hpost : forall y, In y post -> N.eqb (node_oid (fst y)) roid = false) by (apply filter_none; lia).
+    assert (Hother : forall y, In y (pre ++ post) -> key_eqb (fst y) repl = false).
+    { intros y Hy. apply (Hnc x); auto.
+      - apply in_or_app. right. left. reflexivity.
+      - apply in_app_or in Hy. apply in_or_app. destruct Hy; [left|right; right]; assumption.
+      - unfold is_ref. apply in_app_or in Hy. destruct Hy; auto. }
+    rewrite od_insert_replace.
+    + rewrite map_app. simpl. rewrite E3. f_equal; [|f_equal].
+      * rewrite <- (map_id pre) at 1. apply map_ext_in. intros y Hy.
+        unfold kdesignated. rewrite (Hpre y Hy). destruct y; reflexivity.
+      * rewrite <- (map_id post) at 1. apply map_ext_in. intros y Hy.
+        unfold kdesignated. rewrite (Hpost y Hy). destruct y; reflexivity.
+    + apply all_fresh_nodup. simpl. rewrite map_app. simpl.
+      rewrite map_app in Hnd. simpl in Hnd.
+      apply (nodup_replace _ (fst x)); auto.
+      intros k Hk. rewrite <- map_app in Hk. apply in_map_iff in Hk. destruct Hk as [y [<- Hy]].
+      rewrite <- key_eqb_mkey. apply Hother. exact Hy.
+  - rewrite <- (map_id kvs) at 1. apply map_ext_in. intros y Hy.
+    rewrite (find_idx_none_all _ _ _ Ef y Hy). destruct y; reflexivity.
+Qed.
+
+Lemma existsb_false : forall A (f : A -> bool) l, existsb f l = false -> forall x, In x l -> f x = false.
+Proof.
+  intros A f l H x Hx. destruct (f x) eqn:E; auto.
+  assert (existsb f l = true) by (apply existsb_exists; exists x; auto). congruence.
+Qed.
+
+Lemma filter_length_map : forall A B (f : B -> bool) (f' : A -> bool) (g : A -> B) l,
+  (forall x, f (g x) = f' x) -> length (filter f (map g l)) = length (filter f' l).
+Proof.
+  induction l as [|a r IH]; intros H; simpl; auto. rewrite H. destruct (f' a); simpl; rewrite IH; auto.
+Qed.
+
+Lemma ksubst_leaf : forall K repl i v, ksubst K repl (NLeaf i v) = NLeaf i v.
+Proof. reflexivity. Qed.
+
+Lemma leaf_of_no_attr : forall d, wf_attr d = true -> has_anchor_attr (node_info d) = false -> exists i v, d = NLeaf i v.
+Proof.
+  intros [i v|i kvs|i els|i els] Hwf Ha; simpl in *; eauto;
+    try (apply andb_true_iff in Hwf; destruct Hwf as [Hc _]); congruence.
+Qed.
+
+(* THE WALK: recurse = the value substitution at the addressed position and the
+   true aliases, then the replacement of the keys that are true aliases *)
+Theorem recurse_subst : forall poid pref roid repl d,
+  (exists ri rv, repl = NLeaf ri rv) ->
+  wf_attr d = true -> alias_clean poid roid d = true -> mkeys_distinct d = true ->
+  key_conflict roid repl d = false ->
+  recurse poid pref roid repl d
+  = ksubst (kdesignated roid) repl (subst (designated poid pref roid) repl d).
+Proof.
+  intros poid pref roid repl d [ri [rv Hrepl]]. induction d using node_ind'; intros Hwf Hcl Hkd Hnc.
   - reflexivity.
   - (* mapping *)
     simpl in Hwf. apply andb_true_iff in Hwf. destruct Hwf as [Hi Hwf].
-    simpl in Hcl. simpl.
+    simpl in Hcl. apply andb_true_iff in Hcl. destruct Hcl as [Hone Hcl].
+    simpl in Hkd. apply andb_true_iff in Hkd. destruct Hkd as [Hnd Hkd].
+    simpl in Hnc. apply orb_false_iff in Hnc. destruct Hnc as [Hnc1 Hnc2].
+    simpl.
     set (gA := fun kv : node * node =>
                  (fst kv, if is_ref roid (snd kv) then snd kv else recurse poid pref roid repl (snd kv))).
-    assert (Hren : rename_keys roid repl (map gA kvs) = map gA kvs).
-    { unfold rename_keys.
-      rewrite (find_idx_map _ _ _ (fun kv => is_ref roid (fst kv) && hattr (fst kv)) gA) by reflexivity.
-      rewrite find_idx_none; auto.
-      rewrite forallb_forall in *. intros kv Hkv. specialize (Hcl kv Hkv).
-      apply andb_true_iff in Hcl. destruct Hcl as [Hk _]. exact Hk. }
-    fold gA. rewrite Hren. rewrite map_map. f_equal.
+    assert (Hren : rename_keys roid repl (map gA kvs)
+                   = map (fun kv => (if kdesignated roid (fst kv) then repl else fst kv, snd kv)) (map gA kvs)).
+    { apply rename_keys_spec.
+      - rewrite (filter_length_map _ _ _ (fun kv => N.eqb (node_oid (fst kv)) roid) gA) by reflexivity. exact Hone.
+      - rewrite map_map. simpl. exact Hnd.
+      - intros kv Hkv HK kv' Hkv' Hr.
+        apply in_map_iff in Hkv. destruct Hkv as [kv0 [<- Hkv0]].
+        apply in_map_iff in Hkv'. destruct Hkv' as [kv1 [<- Hkv1]]. simpl in *.
+        pose proof (existsb_false _ _ _ Hnc1 kv0 Hkv0) as F. simpl in F.
+        unfold kdesignated in HK. unfold is_ref, hattr in F. rewrite HK in F. simpl in F.
+        pose proof (existsb_false _ _ _ F kv1 Hkv1) as G. simpl in G.
+        unfold is_ref in Hr. rewrite Hr in G. simpl in G. exact G. }
+    fold gA. rewrite Hren. rewrite !map_map. f_equal.
     apply map_ext_in_iff. intros kv Hkv.
     rewrite Forall_forall in H. destruct (H kv Hkv) as [_ IHv].
-    rewrite forallb_forall in Hwf, Hcl. specialize (Hwf kv Hkv). specialize (Hcl kv Hkv).
-    apply andb_true_iff in Hcl. destruct Hcl as [_ Hclv].
-    unfold gA. simpl.
-    assert (Hkey : forall v', key_is pref (fst kv, v') = cref_is pref (CKey (fst kv))).
-    { intros v'. unfold key_is, cref_is. simpl. destruct (fst kv); reflexivity. }
-    unfold designated, is_ref, hattr.
-    destruct (N.eqb (node_oid (snd kv)) roid) eqn:Er.
-    + simpl. rewrite Er. simpl. rewrite Hkey.
-      destruct (has_anchor_attr (node_info (snd kv))) eqn:Ea; simpl; [reflexivity|].
-      match goal with |- (if ?c then _ else _) = _ => destruct c end; [reflexivity|].
-      rewrite (subst_leaf_like _ _ (snd kv)) by assumption.
-      destruct kv; reflexivity.
-    + simpl. rewrite recurse_oid. rewrite Er. simpl. rewrite IHv; auto.
+    rewrite forallb_forall in Hwf, Hcl, Hkd. specialize (Hwf kv Hkv). specialize (Hcl kv Hkv). specialize (Hkd kv Hkv).
+    apply andb_true_iff in Hcl. destruct Hcl as [Hcons Hclv].
+    pose proof (existsb_false _ _ _ Hnc2 kv Hkv) as Hncv. cbv beta in Hncv.
+    destruct kv as [k v]. cbn [fst snd] in *. unfold gA. cbn [fst snd].
+    assert (Hkey : forall k' v', key_is pref (k', v') = cref_is pref (CKey k')).
+    { intros k' v'. unfold key_is, cref_is. cbn [fst]. destruct k'; reflexivity. }
+    rewrite Hkey.
+    unfold designated. unfold is_ref, hattr in *.
+    destruct (N.eqb (node_oid v) roid) eqn:Er; cbn [andb negb] in *.
+    + rewrite ?Er. cbn [andb].
+      destruct (has_anchor_attr (node_info v)) eqn:Ea; cbn [orb].
+      * cbn [fst snd]. subst repl. reflexivity.
+      * (* the value is the matched object but no alias: its key is not renamed *)
+        assert (HK : kdesignated roid k = false).
+        { destruct (kdesignated roid k) eqn:EK; auto. }
+        rewrite HK.
+        destruct (N.eqb (oid i) poid && cref_is pref (CKey k)); cbn [fst snd]; rewrite ?HK.
+        -- subst repl. reflexivity.
+        -- rewrite (subst_leaf_like _ _ v) by assumption.
+           destruct (leaf_of_no_attr _ Hwf Ea) as [li [lv El]]. rewrite El. reflexivity.
+    + rewrite recurse_oid, Er. cbn [andb fst snd]. rewrite IHv; auto.
   - (* sequence *)
     simpl in Hwf. apply andb_true_iff in Hwf. destruct Hwf as [Hi Hwf].
-    simpl in Hcl. simpl. f_equal.
-    apply mapi_imap_ext_in.
-    rewrite Forall_forall in *. rewrite forallb_forall in Hwf, Hcl.
-    intros x Hx idx. specialize (H x Hx). specialize (Hwf x Hx). specialize (Hcl x Hx).
-    unfold designated, is_ref, hattr, cref_is.
-    destruct (N.eqb (node_oid x) roid) eqn:Er; simpl.
-    + destruct (has_anchor_attr (node_info x)) eqn:Ea; simpl; [reflexivity|].
-      destruct (N.eqb (oid i) poid && py_eq (PInt (Z.of_nat idx)) pref); [reflexivity|].
-      rewrite (subst_leaf_like _ _ x) by assumption.
-      destruct x as [xi xv|xi xk|xi xe|xi xe]; simpl in *; try reflexivity;
-        try (apply andb_true_iff in Hwf; destruct Hwf); congruence.
-    + apply H; auto.
+    simpl in Hcl. simpl in Hkd. simpl in Hnc. simpl. f_equal.
+    rewrite forallb_forall in Hwf, Hcl, Hkd. rewrite Forall_forall in H.
+    assert (G : forall k, mapi_from (fun idx x =>
+                  if is_ref roid x && (hattr x || (N.eqb (oid i) poid && py_eq (PInt (Z.of_nat idx)) pref))
+                  then repl else recurse poid pref roid repl x) k els
+                = map (ksubst (kdesignated roid) repl)
+                      (imap (fun idx x => if designated poid pref roid (oid i) (CIdx idx) x then repl
+                                          else subst (designated poid pref roid) repl x) k els)).
+    { clear Hi. induction els as [|x r IHr]; intros k; simpl; auto.
+      rewrite IHr.
+      - f_equal.
+        specialize (H x (or_introl eq_refl)). specialize (Hwf x (or_introl eq_refl)).
+        specialize (Hcl x (or_introl eq_refl)). specialize (Hkd x (or_introl eq_refl)).
+        pose proof (existsb_false _ _ _ Hnc x (or_introl eq_refl)) as Hncx.
+        unfold designated, is_ref, hattr, cref_is.
+        destruct (N.eqb (node_oid x) roid) eqn:Er; simpl.
+        + destruct (has_anchor_attr (node_info x)) eqn:Ea; simpl; [subst repl; reflexivity|].
+          destruct (N.eqb (oid i) poid && py_eq (PInt (Z.of_nat k)) pref); [subst repl; reflexivity|].
+          rewrite (subst_leaf_like _ _ x) by assumption.
+          destruct (leaf_of_no_attr _ Hwf Ea) as [li [lv El]]. rewrite El. reflexivity.
+        + apply H; auto.
+      - intros y Hy. apply H. right. exact Hy.
+      - intros y Hy. apply Hwf. right. exact Hy.
+      - intros y Hy. apply Hcl. right. exact Hy.
+      - intros y Hy. apply Hkd. right. exact Hy.
+      - simpl in Hnc. apply orb_false_iff in Hnc. tauto. }
+    apply G.
   - (* set *)
     simpl in Hcl. simpl. f_equal. unfold set_update.
     rewrite find_none; auto.
-Qed.
-
-(* ---- one _update_node ---- *)
-Theorem update_exact : forall lit fl p value fmt vo d next d' next' o pn c,
-  wf_attr d = true ->
-  pc_parent p = Some o -> find_obj o d = Some pn ->
-  get_change pn (norm_ref pn (pc_ref p)) = ROk (Some c) ->
-  keys_sets_clean o (node_oid c) d = true ->
-  update_node lit fl p value fmt vo (d, next) = ROk (d', next') ->
-  exists new, make_new_node lit fl (Some (node_info c)) value fmt next vo = ROk new /\
-              d' = subst (designated o (norm_ref pn (pc_ref p)) (node_oid c)) new d /\
-              next' = N.succ next.
-Proof.
-  intros lit fl p value fmt vo d next d' next' o pn c Hwf Hp Hf Hc Hk Hu.
-  unfold update_node in Hu. rewrite Hp, Hf, Hc in Hu. simpl in Hu.
-  destruct (make_new_node lit fl (Some (node_info c)) value fmt next vo) as [new|e] eqn:Em; simpl in Hu; [|discriminate].
-  inversion Hu; subst. exists new. repeat split; auto.
-  apply recurse_subst; auto.
 Qed.
 
 (* a failing _update_node leaves the state alone (run_actions keeps the state it had) *)
@@ -222,6 +457,72 @@ Proof.
     rewrite Hw in Ht. unfold nn_tag in Ht. rewrite Es in Ht.
     simpl. destruct Hv as [-> | ->]; rewrite Ht; reflexivity.
   - unfold nn_tag in Ht. rewrite Es in Ht. destruct (nn_wrapped nn); simpl; destruct (nn_val nn); rewrite ?Ht; reflexivity.
+Qed.
+
+(* ---- one _update_node ---- *)
+Theorem update_exact : forall lit fl p value fmt vo d next d' next' o pn c,
+  wf_attr d = true ->
+  pc_parent p = Some o -> find_obj o d = Some pn ->
+  get_change pn (norm_ref pn (pc_ref p)) = ROk (Some c) ->
+  alias_clean o (node_oid c) d = true -> mkeys_distinct d = true ->
+  update_node lit fl p value fmt vo (d, next) = ROk (d', next') ->
+  exists new, make_new_node lit fl (Some (node_info c)) value fmt next vo = ROk new /\
+              d' = ksubst (kdesignated (node_oid c)) new
+                     (subst (designated o (norm_ref pn (pc_ref p)) (node_oid c)) new d) /\
+              next' = N.succ next.
+Proof.
+  intros lit fl p value fmt vo d next d' next' o pn c Hwf Hp Hf Hc Hk Hkd Hu.
+  unfold update_node in Hu. rewrite Hp, Hf, Hc in Hu. simpl in Hu.
+  destruct (make_new_node lit fl (Some (node_info c)) value fmt next vo) as [new|e] eqn:Em; simpl in Hu; [|discriminate].
+  destruct (key_conflict (node_oid c) new d) eqn:Ek; [discriminate|].
+  inversion Hu; subst. exists new. repeat split; auto.
+  apply recurse_subst; auto.
+  destruct (make_new_node_shape _ _ _ _ _ _ _ _ Em) as [nn [_ [i [E _]]]]. eauto.
+Qed.
+
+(* the repaired behaviour (fix 7612ed9): a key alias that would be renamed onto an
+   existing key of its mapping makes _update_node refuse, whatever the document *)
+Theorem update_conflict_refused : forall lit fl p value fmt vo d next o pn c new,
+  pc_parent p = Some o -> find_obj o d = Some pn ->
+  get_change pn (norm_ref pn (pc_ref p)) = ROk (Some c) ->
+  make_new_node lit fl (Some (node_info c)) value fmt next vo = ROk new ->
+  key_conflict (node_oid c) new d = true ->
+  update_node lit fl p value fmt vo (d, next) = RErr (YPE DuplicateKey).
+Proof.
+  intros lit fl p value fmt vo d next o pn c new Hp Hf Hc Hm Hk.
+  unfold update_node. rewrite Hp, Hf, Hc. simpl. rewrite Hm. simpl. rewrite Hk. reflexivity.
+Qed.
+
+(* the anchor-attribute invariant does not look at keys *)
+Theorem ksubst_wf_attr : forall K repl d, wf_attr d = true -> wf_attr (ksubst K repl d) = true.
+Proof.
+  intros K repl d. induction d using node_ind'; intros Hd; simpl in *; auto.
+  - apply andb_true_iff in Hd. destruct Hd as [Hi Hd]. rewrite Hi. simpl.
+    rewrite forallb_forall in *. intros kv Hkv. apply in_map_iff in Hkv.
+    destruct Hkv as [kv0 [E Hin]]. subst kv. simpl.
+    rewrite Forall_forall in H. apply (proj2 (H kv0 Hin)). apply Hd; auto.
+  - apply andb_true_iff in Hd. destruct Hd as [Hi Hd]. rewrite Hi. simpl.
+    rewrite forallb_forall in *. intros x Hx. apply in_map_iff in Hx.
+    destruct Hx as [x0 [E Hin]]. subst x. rewrite Forall_forall in H. apply (H x0 Hin). apply Hd; auto.
+Qed.
+
+(* every pair of a mapping under the key replacement: the key replaced iff it is designated, the value kept *)
+Theorem ksubst_map_nth : forall K repl i kvs n k v,
+  nth_error kvs n = Some (k, v) ->
+  exists kvs', ksubst K repl (NMap i kvs) = NMap i kvs' /\ length kvs' = length kvs /\
+    nth_error kvs' n = Some (if K k then repl else k, ksubst K repl v).
+Proof.
+  intros. eexists. split; [reflexivity|]. split; [apply map_length|].
+  rewrite nth_error_map, H. reflexivity.
+Qed.
+
+Theorem ksubst_frame : forall K repl d, (forall k, K k = false) -> ksubst K repl d = d.
+Proof.
+  intros K repl d HK. induction d using node_ind'; simpl; auto.
+  - f_equal. rewrite <- (map_id kvs) at 2. apply map_ext_in_iff. intros [k v] Hkv. simpl.
+    rewrite HK. f_equal. rewrite Forall_forall in H. apply (proj2 (H _ Hkv)).
+  - f_equal. rewrite <- (map_id els) at 2. apply map_ext_in_iff. intros x Hx.
+    rewrite Forall_forall in H. apply (H _ Hx).
 Qed.
 
 (* ---- the meaning of subst, pointwise ---- *)
